@@ -63,7 +63,7 @@ class C12(flow.Spec):
             "or repetition (Coq oracle consecutive_from), an error event only as the last event, and unless it stopped it "
             "must reach the last change produced. What each real catch_up_sub observed (first read, peeked event or watch "
             "value, re-reads, buffered ids; cfg hook) is fed to the Coq model, whose delivered ids must be the prefix of the "
-            "real stream. Plus `early` histories: a second subscriber attaches while the creator's initial query is still being relayed "
+            "real stream. `commitwin` histories: a from-scratch attach while the matcher has announced a batch (events, last change id) and commits it later (commit-delay knob); the subscriber's snapshot rows and the changes after its end-of-query id are replayed into a view that must equal the table unless the stream was stopped. Plus `early` histories: a second subscriber attaches while the creator's initial query is still being relayed "
             "to the broadcast (relay delay = schedule knob): each subscriber must get every row exactly once, exactly one end of "
             "query and then the consecutive changes. non-trivial = distinct (history, subscriber) whose catch-up had to reconcile (peeked event, watch "
             "ahead, or buffered ids)")
@@ -108,10 +108,16 @@ class C12(flow.Spec):
             nrows = rnd.choice([3, 8, 20, 40])
             relay = rnd.choice([0, 20, 40, 80])
             out.append(("early %d %d %d" % (nrows, rnd.choice([50, 150, 400]), relay), {"attach-during-initial-query", "relay-delay-%d" % relay}))
+        # attaching from scratch while the matcher has announced a batch's changes and not yet
+        # committed them (commit-delay knob): the snapshot and the changes after its id, replayed,
+        # must give the table (or the stream must be stopped)
+        for nrows, delay, after in ([(300, 400, 100), (300, 400, 0), (50, 250, 50), (300, 1500, 200)] if tier == "quick"
+                                    else [(rnd.choice([20, 100, 300, 1000]), rnd.choice([100, 250, 400, 800, 1500]), rnd.choice([0, 20, 100, 300])) for _ in range(40)]):
+            out.append(("commitwin %d %d %d" % (nrows, delay, after), {"attach-between-announce-and-commit", "commit-delay-%d" % delay}))
         return out
 
     def model_lines(self, case, impl_obs):
-        if case.startswith("early"):
+        if case.startswith(("early", "commitwin")):
             return []
         p = parse(impl_obs)
         if p is None:
@@ -137,7 +143,7 @@ class C12(flow.Spec):
         return lines
 
     def agree(self, case, impl_obs, model_obs):
-        if case.startswith("early"):
+        if case.startswith(("early", "commitwin")):
             return True                # judged by impl_verdict: the model is about change events
         p = parse(impl_obs)
         if p is None:
@@ -180,7 +186,7 @@ class C12(flow.Spec):
         return True
 
     def oracle_lines(self, case, impl_obs):
-        if case.startswith("early"):
+        if case.startswith(("early", "commitwin")):
             return []
         p = parse(impl_obs)
         if p is None:
@@ -195,6 +201,20 @@ class C12(flow.Spec):
         return out
 
     def impl_verdict(self, case, impl_obs):
+        if case.startswith("commitwin"):
+            # "a consistent snapshot followed by change events ... start right after the snapshot's":
+            # what the subscriber was told, replayed, must be the table -- unless the stream was
+            # stopped (error event or closed), which the property allows
+            if impl_obs.startswith(("PANIC", "ERR", "CRASH")):
+                return False
+            f = dict(re.findall(r"(\w+)=(\S*)", impl_obs))
+            if f.get("status") != "200":
+                return False
+            if f.get("consecutive") != "1":
+                return False
+            if f.get("err") != "0" or f.get("closed") == "1":
+                return None
+            return None if (f.get("stale"), f.get("missing"), f.get("extra")) == ("0", "0", "0") else False
         if case.startswith("early"):
             # one consistent snapshot: every row exactly once, one end of query, then the changes
             if impl_obs.startswith(("PANIC", "ERR", "CRASH")):
